@@ -52,8 +52,10 @@ def gen_program(chk, i):
                 r = rng.random()
                 if r < 0.6:
                     t = rng.choice(sorted(types))
-                    v = rng.choice(sorted(types[t]["labels"]) + [rng.randint(1, 10 ** 6), -rng.randint(1, 1000)]) \
-                        if types[t]["labels"] else rng.choice([rng.randint(1, 10 ** 6), -5])
+                    # 64-bit values too (also ones that only differ above bit 31)
+                    wide = [rng.randint(1, 10 ** 6), -rng.randint(1, 1000), 2 ** 32 + rng.randint(1, 9), 3 * 10 ** 9,
+                            -(2 ** 35) - rng.randint(0, 5), 2 ** 62 + rng.randint(0, 99)]
+                    v = rng.choice(sorted(types[t]["labels"]) + wide) if types[t]["labels"] else rng.choice(wide)
                     if types[t]["kind"] == "single":
                         ops.append("mark_set %d %d" % (t, v))
                     elif stacks[t] and rng.random() < 0.5:
@@ -195,6 +197,7 @@ NEGATIVES = [
     # (name, thread A ops, thread B ops): one misuse / conflict per run
     ("pop-not-top", ["mark_type 1 1 t", "X", "mark_push 1 5", "mark_pop 1 6"], None),
     ("pop-empty", ["mark_type 1 1 t", "X", "mark_pop 1 6"], None),
+    ("pop-differs-above-bit-31", ["mark_type 1 1 t", "X", "mark_push 1 7", "mark_pop 1 4294967303"], None),
     ("value-zero-set", ["mark_type 1 0 t", "X", "mark_set 1 0"], None),
     ("value-zero-push", ["mark_type 1 1 t", "X", "mark_push 1 0"], None),
     ("undefined-type-set", ["mark_type 1 0 t", "X", "mark_set 2 5"], None),
@@ -217,6 +220,8 @@ CONTROLS = [
     ("ctl-agreeing-definitions", ["mark_type 1 0 t", "mark_label 1 3 a", "X", "mark_set 1 3"],
      ["mark_type 1 0 t", "mark_label 1 3 a", "mark_label 1 4 b", "X", "mark_set 1 4"]),
     ("ctl-stack", ["mark_type 1 1 t", "X", "mark_push 1 5", "mark_push 1 5", "mark_pop 1 5", "mark_pop 1 5"], None),
+    # values that are multiples of 2^32 are not zero
+    ("ctl-multiple-of-2^32", ["mark_type 1 0 t", "X", "mark_set 1 4294967296", "mark_set 1 8589934592"], None),
 ]
 
 
